@@ -279,3 +279,1686 @@ def tokenize(src, lang):
         add('nl', '\n')
     add('eof', '')
     return toks, comments
+
+
+# ---------------------------------------------------------------------------
+# Parser (one Pratt parser, parameterised by language family)
+# ---------------------------------------------------------------------------
+# AST nodes are tuples:
+#   ('num', v) ('str', s, quote) ('id', name) ('bin', op, l, r) ('un', op, e)
+#   ('app', f, args, bracket)   args = [(keyword|None, node)], bracket in ( [ [[ {
+#   ('list', rows) ('tuple', elems) ('block', stmts) ('if', c, then, else)
+#   ('func', name, params, body_stmts, kind) ('assign', lhs, rhs, op)
+#   ('field', obj, name) ('splat', e) ('pattern', name, head) ('return', e)
+#   ('null',) ('all',) ('empty',)
+
+ALL = ('all',)
+EMPTY = ('empty',)
+NULLNODE = ('null',)
+
+
+@dataclass
+class Stmt:
+    node: tuple
+    line: int
+    term: str
+
+
+def _tbl(*levels):
+    out = {}
+    for bp, (assoc, ops) in enumerate(levels, 1):
+        for o in ops.split():
+            out[o] = (bp * 10, assoc)
+    return out
+
+
+_CMP = '== != <= >= < >'
+BIN = {
+    'R': _tbl(('r', '='), ('r', '<- <<-'), ('l', '|| |'), ('l', '&& &'), ('l', _CMP),
+              ('l', '+ -'), ('l', '* /'), ('l', '%%'), ('l', ':'), ('l', '~unary~'), ('r', '^')),
+    'matlab': _tbl(('l', '||'), ('l', '&&'), ('l', '|'), ('l', '&'), ('l', _CMP + ' ~='),
+                   ('l', ':'), ('l', '+ -'), ('l', '* / .* ./ \\'), ('l', '~unary~'), ('l', '^ .^')),
+    'julia': _tbl(('r', '='), ('r', '->'), ('l', '||'), ('l', '&&'), ('l', _CMP), ('l', ':'),
+                  ('l', '+ - .+ .-'), ('l', '* / .* ./ %'), ('l', '::'), ('l', '~unary~'), ('r', '^')),
+    'idl': _tbl(('l', 'or xor ||'), ('l', 'and &&'), ('l', 'eq ne le lt ge gt'), ('l', '+ -'),
+                ('l', '* / mod #'), ('l', '~unary~'), ('r', '^')),
+    'mathematica': _tbl(('l', ';'), ('r', '= :='), ('r', '->'), ('l', '||'), ('l', '&&'),
+                        ('l', _CMP), ('l', ';;'), ('l', '+ -'), ('l', '* /'), ('l', '~unary~'),
+                        ('r', '^'), ('l', '?')),
+    'maple': _tbl(('l', '= <> < > <= >='), ('l', '..'), ('l', '+ -'), ('l', '* /'),
+                  ('l', '~unary~'), ('r', '^'), ('l', '::')),
+}
+BIN['scilab'] = dict(BIN['matlab'], **{'<>': BIN['matlab']['==']})
+PREFIX_OPS = {'R': '+-!', 'matlab': '+-~', 'scilab': '+-~', 'julia': '+-!', 'idl': '+-',
+              'mathematica': '+-!', 'maple': '+-'}
+ALL_MARK = {'matlab': ':', 'scilab': ':', 'julia': ':', 'idl': '*', 'maple': '..'}
+NL_IN_BRACKETS = ('R', 'julia', 'mathematica')      # newlines inside ( ) [ ] are ignored
+CALL_PAREN = ('R', 'matlab', 'scilab', 'julia', 'idl', 'maple')
+INDEX_BRACKET = ('R', 'julia', 'idl', 'maple')
+LIST_BRACKET = ('matlab', 'scilab', 'julia', 'idl', 'maple')
+NAMED_ARGS = ('R', 'idl', 'maple')
+STMT_SEPS = {'R': (';',), 'matlab': (';', ','), 'scilab': (';', ','), 'julia': (';',),
+             'idl': (), 'mathematica': (), 'maple': (';', ':')}
+_UNSUPPORTED_KW = {
+    'R': ('for', 'while', 'repeat'),
+    'matlab': ('function', 'if', 'for', 'while', 'switch', 'try'),
+    'scilab': ('function', 'if', 'for', 'while', 'select', 'try'),
+    'julia': ('if', 'for', 'while', 'let', 'begin', 'struct', 'module', 'try', 'using', 'import'),
+    'idl': ('for', 'while', 'repeat', 'case', 'switch', 'pro', 'function', 'begin', 'foreach'),
+    'mathematica': (), 'maple': ('if', 'for', 'while', 'do', 'use', 'module', 'try'),
+}
+
+
+class Parser:
+    def __init__(self, src, lang, julia_strict_space=True):
+        self.lang = lang
+        self.toks, self.comments = tokenize(src, lang)
+        self.i = 0
+        self.skipnl = [False]
+        self.in_matrix = 0
+        self.brace_depth = 0
+        self.notes = []
+        self.julia_strict_space = julia_strict_space
+        self.bin = BIN[lang]
+        self.unary_bp = self.bin['~unary~'][0]
+
+    # -- token helpers -----------------------------------------------------
+    def bad(self, reason, tok=None, detail=''):
+        tok = tok or self.toks[self.i]
+        what = 'end of line' if tok.kind == 'nl' else 'end of input' if tok.kind == 'eof' else repr(tok.text)
+        raise IllFormed(f'{self.lang}:{reason}: line {tok.line}: at {what} {detail}'.rstrip())
+
+    def lim(self, reason, tok=None):
+        tok = tok or self.toks[self.i]
+        raise StubLimitation(f'{self.lang}:{reason}: line {tok.line}: at {tok.text!r}')
+
+    def peek(self):
+        if self.skipnl[-1]:
+            while self.toks[self.i].kind == 'nl':
+                self.i += 1
+        return self.toks[self.i]
+
+    def peek2(self):
+        self.peek()
+        j = self.i + 1
+        if self.skipnl[-1]:
+            while self.toks[j].kind == 'nl':
+                j += 1
+        return self.toks[min(j, len(self.toks) - 1)]
+
+    def next(self):
+        t = self.peek()
+        if t.kind != 'eof':
+            self.i += 1
+        return t
+
+    def at(self, *texts):
+        t = self.peek()
+        return t.kind == 'op' and t.text in texts
+
+    def at_id(self, *names):
+        t = self.peek()
+        return t.kind == 'id' and t.text in names
+
+    def expect(self, text, reason='expected'):
+        t = self.next()
+        if t.kind not in ('op', 'id') or t.text != text:
+            self.bad(reason, t, f'(expected {text!r})')
+        return t
+
+    def skip_newlines(self):
+        while self.toks[self.i].kind == 'nl':
+            self.i += 1
+
+    # -- programs and statements --------------------------------------------
+    def parse_program(self):
+        stmts = []
+        while True:
+            while self.toks[self.i].kind == 'nl' or (
+                    self.toks[self.i].kind == 'op' and self.toks[self.i].text in STMT_SEPS[self.lang]
+                    and self.lang != 'maple'):
+                self.i += 1
+            t = self.peek()
+            if t.kind == 'eof':
+                return stmts
+            if self.lang == 'maple' and t.kind == 'op' and t.text in (';', ':'):
+                self.note_empty_statement(t)
+                self.i += 1
+                continue
+            node = self.statement()
+            stmts.append(Stmt(node, t.line, self.terminator()))
+
+    def note_empty_statement(self, t):
+        self.notes.append(f'maple:empty_statement: line {t.line}: a bare {t.text!r} (empty statement) '
+                          f'is assumed to be accepted')
+
+    def terminator(self, closers=()):
+        t = self.toks[self.i]
+        if t.kind in ('nl', 'eof'):
+            if self.lang == 'maple' and t.kind == 'eof':
+                self.notes.append('maple:last_statement_without_terminator')
+            return ''
+        if t.kind == 'op' and t.text in STMT_SEPS[self.lang]:
+            self.i += 1
+            return t.text
+        if (t.kind in ('op', 'id')) and t.text in closers:
+            return ''
+        reason = 'stray_tokens'
+        if self.lang == 'maple' and t.kind != 'op':
+            reason = 'missing_statement_terminator'
+        self.bad(reason, t)
+
+    def statement(self):
+        lang, t = self.lang, self.peek()
+        if t.kind == 'id' and t.text in _UNSUPPORTED_KW[lang] and self.peek2().text not in ('=', '<-', ':='):
+            self.lim('unsupported_statement', t)
+        if t.kind == 'op' and t.text not in PREFIX_OPS[lang] + '([{@' and t.kind != 'str':
+            reason = 'stray_token_after_comment' if t.after_comment else 'unexpected_token'
+            self.bad(reason, t)
+        if lang == 'idl':
+            return self.idl_statement()
+        if lang == 'julia' and t.kind == 'id' and t.text == 'return':
+            self.next()
+            nxt = self.toks[self.i]
+            return ('return', NULLNODE if nxt.kind in ('nl', 'eof') or nxt.text in (';', 'end')
+                    else self.parse_expr(0))
+        if lang in ('matlab', 'scilab') and t.kind == 'op' and t.text == '[':
+            save = self.i
+            lhs = self.parse_expr(0)
+            if self.at('='):
+                self.lim('multiple_assignment', t)
+            self.i = save
+        node = self.parse_expr(0)
+        if lang in ('matlab', 'scilab') and self.at('='):
+            self.next()
+            if node[0] not in ('id', 'app', 'field'):
+                self.bad('bad_assignment_target', t)
+            return ('assign', node, self.parse_expr(0), '=')
+        if lang == 'maple' and self.at(':='):
+            self.next()
+            if node[0] not in ('id', 'app'):
+                self.bad('bad_assignment_target', t)
+            return ('assign', node, self.parse_expr(0), ':=')
+        return node
+
+    def idl_statement(self):
+        t = self.peek()
+        if t.kind == 'id' and t.text == 'if':
+            self.next()
+            cond = self.parse_expr(0)
+            if not self.at_id('then'):
+                self.bad('if_without_then')
+            self.next()
+            then = self.idl_statement()
+            other = None
+            if self.at_id('else'):
+                self.next()
+                other = self.idl_statement()
+            return ('if', cond, then, other)
+        if t.kind == 'id' and self.peek2().kind == 'op' and self.peek2().text == ',':
+            self.lim('procedure_call', t)
+        node = self.parse_expr(0)
+        if self.at('='):
+            self.next()
+            if node[0] not in ('id', 'app'):
+                self.bad('bad_assignment_target', t)
+            return ('assign', node, self.parse_expr(0), '=')
+        if node[0] == 'id':
+            self.lim('procedure_call', t)
+        self.bad('expression_is_not_a_statement', t)
+
+    def block_until(self, closers, seps):
+        """Statements up to (not including) one of the closer tokens."""
+        stmts = []
+        self.skipnl.append(False)
+        while True:
+            while self.toks[self.i].kind == 'nl' or (self.toks[self.i].kind == 'op'
+                                                     and self.toks[self.i].text in seps):
+                if self.lang == 'maple' and self.toks[self.i].kind == 'op':
+                    self.note_empty_statement(self.toks[self.i])
+                self.i += 1
+            t = self.toks[self.i]
+            if t.kind == 'eof':
+                self.bad('unterminated_block', t)
+            if t.kind in ('op', 'id') and t.text in closers:
+                break
+            node = self.statement()
+            stmts.append(Stmt(node, t.line, self.terminator(closers)))
+        self.skipnl.pop()
+        return stmts
+
+    # -- expressions ----------------------------------------------------------
+    def parse_expr(self, rbp):
+        left = self.prefix()
+        while True:
+            t = self.peek()
+            if t.kind in ('nl', 'eof'):
+                break
+            if self.in_matrix and t.sp and t.kind == 'op' and (
+                    (t.text in '+-' and not self.toks[self.i + 1].sp) or t.text == '('):
+                break
+            new = self.postfix(left, t)
+            if new is not None:
+                left = new
+                continue
+            if t.kind == 'op' or (self.lang == 'idl' and t.kind == 'id'):
+                ent = self.bin.get(t.text)
+                if ent is None or ent[0] <= rbp:
+                    break
+                self.next()
+                if self.lang == 'mathematica' and t.text == ';':
+                    nxt = self.toks[self.i]
+                    if nxt.kind in ('nl', 'eof') and self.skipnl[-1] is False or \
+                            self.peek().kind == 'eof' or self.at(']', ')', '}', ','):
+                        left = ('bin', ';', left, NULLNODE)
+                        continue
+                if self.lang in NL_IN_BRACKETS:
+                    self.skip_newlines()
+                right = self.parse_expr(ent[0] - (1 if ent[1] == 'r' else 0))
+                if t.text in ('=', '<-', '<<-', ':=') and self.lang in ('R', 'julia', 'mathematica'):
+                    left = ('assign', left, right, t.text)
+                else:
+                    left = ('bin', t.text, left, right)
+                continue
+            break
+        return left
+
+    def prefix(self):
+        lang = self.lang
+        t = self.next()
+        if t.kind == 'num':
+            return ('num', t.val)
+        if t.kind == 'str':
+            return ('str', t.val, t.quote)
+        if t.kind == 'id':
+            return self.prefix_id(t)
+        if t.kind == 'op':
+            if t.text in PREFIX_OPS[lang]:
+                return ('un', t.text, self.parse_expr(self.unary_bp))
+            if lang == 'idl' and t.text == 'not':
+                return ('un', 'not', self.parse_expr(self.unary_bp))
+            if t.text == '(':
+                return self.paren()
+            if t.text == '[' and lang in LIST_BRACKET:
+                return self.list_literal()
+            if t.text == '{' and lang == 'mathematica':
+                return ('list', [[n for _, n in self.parse_args('}')]])
+            if t.text == '{' and lang == 'R':
+                self.brace_depth += 1
+                stmts = self.block_until(('}',), (';',))
+                self.brace_depth -= 1
+                self.expect('}')
+                return ('block', stmts)
+            if t.text == '@' and lang == 'matlab':
+                if self.at('('):
+                    self.next()
+                    params = [self.param(n) for _, n in self.parse_args(')')]
+                    return ('func', None, params, [Stmt(self.parse_expr(0), t.line, '')], 'anon')
+                return self.prefix()
+        self.bad('stray_token_after_comment' if t.after_comment else 'unexpected_token', t)
+
+    def param(self, node):
+        if node[0] == 'id':
+            return (node[1], None)
+        if node[0] == 'bin' and node[1] == '::' and node[2][0] == 'id':
+            return (node[2][1], node[3])
+        if node[0] == 'pattern':
+            return (node[1], node)
+        if node[0] == 'bin' and node[1] == '?' and node[2][0] == 'pattern':
+            return (node[2][1], node)
+        self.bad('bad_parameter')
+
+    def prefix_id(self, t):
+        lang, name = self.lang, t.text
+        if lang == 'R' and name == 'function':
+            self.expect('(')
+            params = []
+            for kw, n in self.parse_args(')'):
+                params.append((kw, n) if kw else self.param(n))
+            self.skip_newlines()
+            return ('func', None, params, [Stmt(self.parse_expr(0), t.line, '')], 'R')
+        if lang == 'R' and name == 'if':
+            self.expect('(')
+            self.skipnl.append(True)
+            cond = self.parse_expr(0)
+            self.skipnl.pop()
+            self.expect(')')
+            self.skip_newlines()
+            then = self.parse_expr(0)
+            j = self.i
+            if self.brace_depth:
+                while self.toks[j].kind == 'nl':
+                    j += 1
+            other = None
+            if self.toks[j].kind == 'id' and self.toks[j].text == 'else':
+                self.i = j + 1
+                self.skip_newlines()
+                other = self.parse_expr(0)
+            return ('if', cond, then, other)
+        if lang == 'julia' and name == 'function':
+            fname = self.next()
+            if fname.kind != 'id':
+                self.bad('bad_function_header', fname)
+            self.expect('(')
+            params = [self.param(n) for _, n in self.parse_args(')')]
+            body = self.block_until(('end',), (';',))
+            self.expect('end')
+            return ('func', fname.text, params, body, 'julia')
+        if lang == 'maple' and name == 'proc':
+            self.expect('(')
+            params = [self.param(n) for _, n in self.parse_args(')')]
+            if self.at('::'):
+                self.next()
+                self.parse_expr(0)
+                self.expect(';')
+            elif self.at(';', ':'):
+                self.notes.append(f'maple:terminator_after_proc_header: line {t.line}: '
+                                  f'`proc(...)` directly followed by {self.peek().text!r} is assumed to be accepted')
+                self.next()
+            while self.at_id('local', 'global', 'option', 'options', 'description'):
+                self.lim('proc_declarations')
+            body = self.block_until(('end',), (';', ':'))
+            self.expect('end')
+            if self.at_id('proc'):
+                self.next()
+            return ('func', None, params, body, 'maple')
+        return ('id', name)
+
+    def paren(self):
+        self.skipnl.append(self.lang in NL_IN_BRACKETS or self.lang == 'maple')
+        saved, self.in_matrix = self.in_matrix, 0
+        elems, trailing = [], False
+        if self.lang == 'julia' and self.at(')'):
+            self.next()
+            self.skipnl.pop()
+            self.in_matrix = saved
+            return ('tuple', [])
+        while True:
+            elems.append(self.parse_expr(0))
+            t = self.next()
+            if t.kind == 'op' and t.text == ')':
+                break
+            if t.kind == 'op' and t.text == ',' and self.lang == 'julia':
+                if self.at(')'):
+                    self.next()
+                    trailing = True
+                    break
+                continue
+            self.bad('unbalanced_parenthesis', t)
+        self.skipnl.pop()
+        self.in_matrix = saved
+        if len(elems) > 1 or trailing:
+            return ('tuple', elems)
+        return elems[0]
+
+    def list_literal(self):
+        if self.lang not in ('matlab', 'scilab'):
+            return ('list', [[n for _, n in self.parse_args(']')]])
+        rows = [[]]
+        self.skipnl.append(False)
+        self.in_matrix += 1
+        while True:
+            t = self.toks[self.i]
+            if t.kind == 'eof':
+                self.bad('unbalanced_bracket', t)
+            if t.kind == 'op' and t.text == ']':
+                self.i += 1
+                break
+            if t.kind == 'nl' or (t.kind == 'op' and t.text == ';'):
+                self.i += 1
+                if rows[-1]:
+                    rows.append([])
+                continue
+            if t.kind == 'op' and t.text == ',':
+                self.i += 1
+                continue
+            rows[-1].append(self.parse_expr(0))
+        self.in_matrix -= 1
+        self.skipnl.pop()
+        if not rows[-1] and len(rows) > 1:
+            rows.pop()
+        return ('list', rows)
+
+    def postfix(self, left, t):
+        lang = self.lang
+        if t.kind != 'op':
+            return None
+        if t.text == '(' and lang in CALL_PAREN:
+            if lang == 'julia' and t.sp:
+                if self.julia_strict_space:
+                    self.bad('space_before_call_parenthesis', t)
+                self.notes.append('julia:space_before_call_parenthesis accepted for Julia < 1')
+            if lang in ('matlab', 'scilab', 'maple', 'idl') and left[0] not in ('id', 'app', 'field'):
+                return None
+            self.next()
+            return ('app', left, self.parse_args(')'), '(')
+        if t.text == '[':
+            if lang == 'mathematica':
+                self.next()
+                nxt = self.toks[self.i]
+                if nxt.kind == 'op' and nxt.text == '[' and not nxt.sp:
+                    self.next()
+                    args = self.parse_args(']')
+                    c2 = self.toks[self.i]
+                    if not (c2.kind == 'op' and c2.text == ']'):
+                        self.bad('unbalanced_part_brackets', c2)
+                    self.i += 1
+                    return ('app', left, args, '[[')
+                return ('app', left, self.parse_args(']'), '[')
+            if lang in INDEX_BRACKET and not (lang == 'julia' and t.sp):
+                self.next()
+                if lang == 'R' and self.at('['):
+                    self.lim('double_bracket_index', t)
+                return ('app', left, self.parse_args(']'), '[')
+            return None
+        if t.text == '{' and lang == 'julia' and not t.sp:
+            self.next()
+            return ('app', left, self.parse_args('}'), '{')
+        if t.text in ("'", ".'") and lang in ('matlab', 'scilab', 'julia'):
+            self.next()
+            return ('un', "'", left)
+        if t.text == '.' and lang in ('matlab', 'julia') and self.toks[self.i + 1].kind == 'id':
+            self.next()
+            return ('field', left, self.next().text)
+        if t.text == '...' and lang == 'julia':
+            self.next()
+            return ('splat', left)
+        if t.text == '_' and lang == 'mathematica' and left[0] == 'id' and not t.sp:
+            self.next()
+            head = None
+            nxt = self.toks[self.i]
+            if nxt.kind == 'id' and not nxt.sp:
+                head = self.next().text
+            return ('pattern', left[1], head)
+        return None
+
+    # -- argument lists -----------------------------------------------------
+    def parse_args(self, close):
+        self.skipnl.append(self.lang in NL_IN_BRACKETS or self.lang == 'maple')
+        saved, self.in_matrix = self.in_matrix, 0
+        args = []
+        if self.at(close):
+            self.next()
+        else:
+            while True:
+                args.append(self.parse_arg(close))
+                t = self.next()
+                if t.kind == 'op' and t.text == close:
+                    break
+                if not (t.kind == 'op' and t.text == ','):
+                    self.bad('bad_argument_list', t, f'(expected , or {close})')
+                if self.lang == 'julia' and self.at(close):
+                    self.next()
+                    break
+        self.skipnl.pop()
+        self.in_matrix = saved
+        return args
+
+    def parse_arg(self, close):
+        lang, t, t2 = self.lang, self.peek(), self.peek2()
+        ends = (',', close)
+        if t.kind == 'op' and t.text in ends:
+            if lang == 'R':
+                return (None, EMPTY)
+            self.bad('empty_argument', t)
+        if t.kind == 'op' and t.text == ALL_MARK.get(lang) and t2.kind == 'op' and t2.text in ends:
+            self.next()
+            return (None, ALL)
+        if lang in NAMED_ARGS and t.kind == 'id' and t2.kind == 'op' and t2.text == '=':
+            self.next()
+            self.next()
+            return (t.text, self.parse_expr(self.bin.get('=', (0,))[0] if lang == 'maple' else 0))
+        if lang == 'idl' and t.kind == 'op' and t.text == '/' and t2.kind == 'id':
+            self.next()
+            self.next()
+            return (t2.text, ('num', 1))
+        node = self.parse_expr(self.bin['='][0] if lang == 'R' else 0)
+        if lang == 'idl' and self.at(':'):
+            self.next()
+            if self.at('*') and self.peek2().kind == 'op' and self.peek2().text in ends:
+                self.next()
+                node = ('bin', ':', node, ALL)
+            else:
+                node = ('bin', ':', node, self.parse_expr(0))
+            if self.at(':'):
+                self.lim('strided_subscript')
+        return (None, node)
+
+
+def find_nodes(node, pred, out=None):
+    """All sub-nodes (pre-order) for which pred(node) holds."""
+    out = [] if out is None else out
+    if isinstance(node, Stmt):
+        node = node.node
+    if isinstance(node, tuple):
+        if node and isinstance(node[0], str) and pred(node):
+            out.append(node)
+        for x in node:
+            find_nodes(x, pred, out)
+    elif isinstance(node, list):
+        for x in node:
+            find_nodes(x, pred, out)
+    return out
+
+
+# ---------------------------------------------------------------------------
+# Evaluator base
+# ---------------------------------------------------------------------------
+
+class _AllType:
+    def __repr__(self):
+        return 'ALL'
+
+
+ALLV = _AllType()          # value of a bare  :  *  ..  or empty R subscript
+
+
+@dataclass
+class Rng:
+    a: object
+    b: object
+
+
+@dataclass
+class Func:
+    params: list
+    body: list
+    env: dict
+    kind: str
+    name: str = None
+    outs: tuple = ()
+
+
+class FileH:
+    def __init__(self, path, literal, data, order='<', mode='rb'):
+        self.path, self.literal, self.data, self.order, self.mode = path, literal, data, order, mode
+        self.pos = 0
+
+
+class _Return(Exception):
+    def __init__(self, value):
+        self.value = value
+
+
+def native(code):
+    return np.dtype(code).newbyteorder('=')
+
+
+def is_scalar(v):
+    return isinstance(v, (bool, int, float, complex, np.generic))
+
+
+class Interp:
+    lang = '?'          # reason-token prefix
+    family = '?'        # lexer/parser family
+    origin = 1
+
+    def __init__(self, cwd):
+        self.cwd = os.fspath(cwd)
+        self.env = {}
+        self.files = {}
+        self.unverified = []
+        self.paths = []
+
+    # -- diagnostics --------------------------------------------------------
+    def note(self, msg):
+        if msg not in self.unverified:
+            self.unverified.append(msg)
+
+    def bad(self, reason, detail=''):
+        raise IllFormed(f'{self.lang}:{reason}: {detail}'.rstrip(': '))
+
+    def rt(self, reason, detail=''):
+        raise LangRuntimeError(f'{self.lang}:{reason}: {detail}'.rstrip(': '))
+
+    def lim(self, reason, detail=''):
+        raise StubLimitation(f'{self.lang}:{reason}: {detail}'.rstrip(': '))
+
+    # -- files --------------------------------------------------------------
+    def load(self, literal, order='<', mode='rb'):
+        if not isinstance(literal, str):
+            self.bad('file_name_not_a_string', repr(literal))
+        path = literal if os.path.isabs(literal) else os.path.join(self.cwd, literal)
+        self.paths.append(literal)
+        if not os.path.isfile(path):
+            self.bad('file_not_found', literal)
+        with open(path, 'rb') as fh:
+            return FileH(path, literal, fh.read(), order, mode)
+
+    def read(self, fh, code, count, order, skip=0):
+        """Read up to `count` elements (None = all) of numpy type `code`."""
+        dt = np.dtype(code).newbyteorder(order)
+        stride = dt.itemsize + skip
+        avail = max(0, (len(fh.data) - fh.pos + skip) // stride)
+        cnt = avail if count is None else min(int(count), avail)
+        out = np.ndarray((cnt,), dt, fh.data, fh.pos, (stride,)) if cnt else np.empty(0, dt)
+        fh.pos = min(len(fh.data), fh.pos + cnt * stride)
+        return out.astype(native(code))
+
+    def open_files(self):
+        return [f.literal for f in self.files.values()]
+
+    # -- running --------------------------------------------------------------
+    def parse(self, code):
+        p = Parser(code, self.family, julia_strict_space=self.lang != 'julia_ver0')
+        stmts = p.parse_program()
+        for n in p.notes:
+            self.note(n)
+        return stmts, p.comments
+
+    def run(self, stmts):
+        for s in stmts:
+            self.exec(s, self.env)
+
+    def exec(self, stmt, env):
+        return self.ev(stmt.node, env)
+
+    def ev(self, node, env):
+        meth = getattr(self, 'ev_' + node[0], None)
+        if meth is None:
+            self.lim('unsupported_construct', node[0])
+        return meth(node, env)
+
+    def ev_num(self, node, env):
+        return node[1]
+
+    def ev_str(self, node, env):
+        return node[1]
+
+    def ev_all(self, node, env):
+        return ALLV
+
+    def ev_empty(self, node, env):
+        return ALLV
+
+    def ev_null(self, node, env):
+        return None
+
+    def ev_un(self, node, env):
+        v = self.ev(node[2], env)
+        if node[1] == '+':
+            return self.number(v)
+        if node[1] == '-':
+            return -self.number(v)
+        self.lim('unary_operator', node[1])
+
+    # -- values ---------------------------------------------------------------
+    def number(self, v, what='operand'):
+        if isinstance(v, np.ndarray) or is_scalar(v):
+            return v
+        self.rt('not_numeric', f'{what}: {type(v).__name__}')
+
+    def integer(self, v, what):
+        if isinstance(v, np.ndarray) and v.size == 1:
+            v = v.reshape(-1)[0].item()
+        if isinstance(v, np.generic):
+            v = v.item()
+        if isinstance(v, bool) or not isinstance(v, (int, float)):
+            self.bad('not_a_number', f'{what}: {v!r}')
+        if isinstance(v, float):
+            if v != v or v in (float('inf'), float('-inf')) or v != int(v):
+                self.bad('not_an_integer', f'{what}: {v!r}')
+            v = int(v)
+        return v
+
+    def arith(self, op, a, b):
+        a, b = self.number(a), self.number(b)
+        if op in ('+', '.+'):
+            return a + b
+        if op in ('-', '.-'):
+            return a - b
+        if op in ('*', '.*'):
+            if op == '*' and isinstance(a, np.ndarray) and isinstance(b, np.ndarray) \
+                    and a.size > 1 and b.size > 1:
+                self.lim('matrix_product')
+            return a * b
+        if op in ('/', './'):
+            if isinstance(b, np.ndarray) and op == '/' and b.size > 1:
+                self.lim('matrix_division')
+            if isinstance(a, int) and isinstance(b, int):
+                if b == 0:
+                    self.rt('division_by_zero')
+                if self.family == 'idl':
+                    return int(a / b)
+                if a % b == 0 and self.family in ('mathematica', 'maple'):
+                    return a // b
+                if self.family in ('mathematica', 'maple'):
+                    self.lim('rational_number')
+            return a / b
+        if op == '^':
+            return a ** b
+        cmp = {'==': 'eq', '!=': 'ne', '~=': 'ne', '<>': 'ne', '<': 'lt', '>': 'gt', '<=': 'le',
+               '>=': 'ge'}.get(op, op)
+        if cmp in ('eq', 'ne', 'lt', 'gt', 'le', 'ge'):
+            if cmp in ('lt', 'gt', 'le', 'ge') and (isinstance(a, complex) or isinstance(b, complex)):
+                self.lim('complex_ordering')
+            return {'eq': lambda: a == b, 'ne': lambda: a != b, 'lt': lambda: a < b,
+                    'gt': lambda: a > b, 'le': lambda: a <= b, 'ge': lambda: a >= b}[cmp]()
+        self.lim('binary_operator', op)
+
+    def truth(self, v, what='condition'):
+        if isinstance(v, np.ndarray):
+            if v.size != 1:
+                self.rt('condition_not_scalar', what)
+            v = v.reshape(-1)[0].item()
+        if isinstance(v, np.generic):
+            v = v.item()
+        if not isinstance(v, (bool, int, float)):
+            self.rt('condition_not_logical', what)
+        return bool(v)
+
+    def positions(self, s, n, what='subscript'):
+        """Language-native positions for one subscript: ALLV | int | 1-d int array."""
+        if s is ALLV:
+            return ALLV
+        if isinstance(s, Rng):
+            return self.range_positions(s, n)
+        if isinstance(s, np.ndarray):
+            if s.dtype == bool:
+                self.lim('logical_subscript')
+            flat = s.reshape(-1, order='F')
+            if flat.dtype.kind == 'f':
+                if flat.size and not np.all(flat == np.floor(flat)):
+                    self.rt('non_integer_subscript', what)
+                flat = flat.astype(np.int64)
+            if flat.dtype.kind not in 'iu':
+                self.rt('bad_subscript_type', what)
+            return flat.astype(np.int64)
+        if is_scalar(s):
+            if isinstance(s, np.generic):
+                s = s.item()
+            if isinstance(s, bool) or isinstance(s, complex):
+                self.lim('logical_or_complex_subscript')
+            if isinstance(s, float):
+                if s != int(s):
+                    self.rt('non_integer_subscript', f'{what}: {s!r}')
+                s = int(s)
+            return s
+        self.rt('bad_subscript_type', f'{what}: {type(s).__name__}')
+
+    def range_ends(self, r):
+        a, b = r.a, r.b
+        for x in (a, b):
+            if x is ALLV:
+                continue
+            if isinstance(x, np.ndarray) and x.size == 1:
+                continue
+            if not is_scalar(x) or isinstance(x, complex):
+                self.lim('range_endpoint', type(x).__name__)
+
+        def conv(x):
+            if x is ALLV:
+                return x
+            if isinstance(x, np.ndarray):
+                x = x.reshape(-1)[0]
+            x = x.item() if isinstance(x, np.generic) else x
+            if isinstance(x, float):
+                if x != int(x):
+                    self.lim('non_integer_range')
+                x = int(x)
+            return int(x)
+        return conv(a), conv(b)
+
+    def range_positions(self, r, n):
+        a, b = self.range_ends(r)
+        return np.arange(a, b + 1, dtype=np.int64)
+
+    def take(self, arr, subs, what='array'):
+        """subs: one entry per axis of arr (ALLV | int | int array, native origin).
+        Every axis is kept; returns (result, [axis was subscripted by a scalar])."""
+        idx, scal = [], []
+        for ax, (s, n) in enumerate(zip(subs, arr.shape)):
+            if s is ALLV:
+                idx.append(np.arange(n, dtype=np.intp))
+                scal.append(False)
+                continue
+            scal.append(not isinstance(s, np.ndarray))
+            p = np.atleast_1d(np.asarray(s, dtype=np.int64)) - self.origin
+            if p.size and (p.min() < 0 or p.max() >= n):
+                bad = int(p.min() if p.min() < 0 else p.max()) + self.origin
+                self.rt('index_out_of_range', f'subscript {ax + 1} of {what}: position {bad} '
+                                              f'outside extent {n}')
+            idx.append(p.astype(np.intp))
+        return arr[np.ix_(*idx)] if idx else arr, scal
+
+    def result_array(self, v, scalar_shape=()):
+        """Final value of a variable as ndarray in the language's dims."""
+        if isinstance(v, np.ndarray):
+            return v
+        if is_scalar(v):
+            return np.asarray(v).reshape(scalar_shape)
+        if v is None:
+            return np.empty((0,))
+        self.lim('result_is_not_numeric', type(v).__name__)
+
+    def call(self, fn, args):
+        raise NotImplementedError
+
+    def args_values(self, args, env):
+        return [(kw, self.ev(n, env)) for kw, n in args]
+
+
+# ---------------------------------------------------------------------------
+# Matlab / Octave and Scilab
+# ---------------------------------------------------------------------------
+
+_ML_SRC = {'int8': 'i1', 'integer*1': 'i1', 'schar': 'i1', 'signed char': 'i1',
+           'uint8': 'u1', 'uchar': 'u1', 'unsigned char': 'u1',
+           'int16': 'i2', 'integer*2': 'i2', 'short': 'i2', 'uint16': 'u2', 'ushort': 'u2',
+           'unsigned short': 'u2', 'int32': 'i4', 'integer*4': 'i4', 'int': 'i4',
+           'uint32': 'u4', 'uint': 'u4', 'unsigned int': 'u4', 'int64': 'i8', 'integer*8': 'i8',
+           'uint64': 'u8', 'single': 'f4', 'float32': 'f4', 'float': 'f4', 'real*4': 'f4',
+           'double': 'f8', 'float64': 'f8', 'real*8': 'f8'}
+_ML_CLASS = {'int8': 'i1', 'uint8': 'u1', 'int16': 'i2', 'uint16': 'u2', 'int32': 'i4',
+             'uint32': 'u4', 'int64': 'i8', 'uint64': 'u8', 'single': 'f4', 'double': 'f8'}
+_ML_MACHINEFMT = {'n': '=', 'native': '=', 'l': '<', 'ieee-le': '<', 'b': '>', 'ieee-be': '>',
+                  'a': '<', 'ieee-le.l64': '<', 's': '>', 'ieee-be.l64': '>'}
+
+
+def _min2d(a):
+    """Matlab dims: at least 2, no trailing singleton beyond the second."""
+    shape = list(a.shape)
+    while len(shape) > 2 and shape[-1] == 1:
+        shape.pop()
+    while len(shape) < 2:
+        shape.append(1)
+    return a.reshape(shape, order='F')
+
+
+class MatlabInterp(Interp):
+    lang = family = 'matlab'
+    constants = {'Inf': float('inf'), 'inf': float('inf'), 'pi': np.pi, 'true': True, 'false': False,
+                 'NaN': float('nan'), 'nan': float('nan')}
+
+    def __init__(self, cwd):
+        super().__init__(cwd)
+        self.next_fid = 3
+        self.last_fid = None
+
+    # -- nodes ----------------------------------------------------------------
+    def ev_id(self, node, env):
+        name = node[1]
+        if name in env:
+            return env[name]
+        if name in self.constants:
+            return self.constants[name]
+        if name == 'end':
+            self.lim('end_in_subscript')
+        if hasattr(self, 'b_' + name):
+            return getattr(self, 'b_' + name)([])
+        self.lim('unknown_name', name)
+
+    def ev_list(self, node, env):
+        rows = []
+        for row in node[1]:
+            vals = []
+            for n in row:
+                v = self.ev(n, env)
+                if isinstance(v, Rng):
+                    a, b = self.range_ends(v)
+                    vals.extend(float(x) for x in range(a, b + 1))
+                elif is_scalar(v) and not isinstance(v, complex):
+                    vals.append(float(v))
+                elif isinstance(v, np.ndarray) and v.ndim == 2 and v.shape[0] == 1 and len(node[1]) == 1:
+                    vals.extend(v.reshape(-1).tolist())
+                else:
+                    self.lim('matrix_literal_element', type(v).__name__)
+            if vals or len(node[1]) > 1:
+                rows.append(vals)
+        if not rows:
+            return np.zeros((0, 0))
+        if len({len(r) for r in rows}) != 1:
+            self.rt('inconsistent_row_lengths')
+        return np.array(rows, dtype=np.float64).reshape(len(rows), -1)
+
+    def ev_bin(self, node, env):
+        op = node[1]
+        a, b = self.ev(node[2], env), self.ev(node[3], env)
+        if op == ':':
+            if isinstance(a, Rng):
+                self.lim('stepped_range')
+            return Rng(a, b)
+        return self.arith(op, a, b)
+
+    def ev_un(self, node, env):
+        if node[1] == "'":
+            v = self.ev(node[2], env)
+            if is_scalar(v):
+                return v
+            if not isinstance(v, np.ndarray) or v.ndim != 2:
+                self.rt('transpose_of_nd_array')
+            return v.T.conj() if v.dtype.kind == 'c' else v.T
+        return super().ev_un(node, env)
+
+    def ev_func(self, node, env):
+        return Func(node[2], node[3], dict(env), 'anon')
+
+    def ev_assign(self, node, env):
+        _, lhs, rhs, _ = node
+        if lhs[0] != 'id':
+            self.lim('indexed_assignment')
+        v = self.ev(rhs, env)
+        if v is None:
+            self.rt('no_value_to_assign', lhs[1])
+        env[lhs[1]] = v
+        return v
+
+    def ev_field(self, node, env):
+        self.lim('field_access', node[2])
+
+    def ev_app(self, node, env):
+        _, f, args, br = node
+        if f[0] == 'field' and f[1][0] == 'id' and f[1][1] not in env:
+            name = f'{f[1][1]}_{f[2]}'
+            if hasattr(self, 'b_' + name):
+                return getattr(self, 'b_' + name)([self.ev(n, env) for _, n in args])
+            self.lim('unknown_function', f'{f[1][1]}.{f[2]}')
+        if f[0] == 'id' and f[1] not in env:
+            meth = getattr(self, 'b_' + f[1], None)
+            if meth is None:
+                self.lim('unknown_function', f[1])
+            return meth([self.ev(n, env) for _, n in args])
+        target = self.ev(f, env)
+        vals = [self.ev(n, env) for _, n in args]
+        if isinstance(target, Func):
+            return self.call(target, vals)
+        if isinstance(target, np.ndarray) or is_scalar(target):
+            return self.index(self.arr(target), vals, f[1] if f[0] == 'id' else 'value')
+        self.rt('not_indexable', type(target).__name__)
+
+    # -- semantics --------------------------------------------------------------
+    def arr(self, v):
+        if isinstance(v, np.ndarray):
+            return _min2d(v)
+        if is_scalar(v):
+            return np.array(v, dtype=np.float64 if isinstance(v, (bool, int, float)) else None).reshape(1, 1)
+        self.rt('not_numeric', type(v).__name__)
+
+    def call(self, fn, vals):
+        if len(vals) != len(fn.params):
+            self.rt('wrong_number_of_arguments', f'{len(vals)} for {len(fn.params)}')
+        if fn.kind == 'anon':
+            local = dict(fn.env)
+            local.update({p[0]: v for p, v in zip(fn.params, vals)})
+            return self.ev(fn.body[0].node, local)
+        local = dict(self.env)           # Scilab: a function sees the caller's variables
+        local.update({p: v for p, v in zip(fn.params, vals)})
+        for s in fn.body:
+            self.exec(s, local)
+        if not fn.outs:
+            return None
+        if fn.outs[0] not in local or (fn.outs[0] in self.env and local[fn.outs[0]] is self.env[fn.outs[0]]):
+            self.rt('output_not_assigned', fn.outs[0])
+        return local[fn.outs[0]]
+
+    def range_positions(self, r, n):
+        a, b = self.range_ends(r)
+        if b is ALLV or a is ALLV:
+            self.lim('open_range')
+        return np.arange(a, b + 1, dtype=np.int64)      # empty when a > b
+
+    def index(self, A, vals, what):
+        m = len(vals)
+        if m == 0:
+            return A
+        if m == 1:
+            flat = A.reshape(-1, order='F')
+            s = self.positions(vals[0], flat.size)
+            if s is ALLV:
+                return flat.reshape(-1, 1)
+            res, scal = self.take(flat, [s], what)
+            if scal[0]:
+                return res[0].item()
+            src = vals[0]
+            if isinstance(src, np.ndarray) and not (1 in src.shape and src.ndim == 2):
+                return _min2d(res.reshape(src.shape, order='F'))
+            is_vec = A.ndim == 2 and 1 in A.shape and A.size != 1
+            if is_vec:
+                return res.reshape((-1, 1) if A.shape[1] == 1 else (1, -1))
+            if isinstance(src, np.ndarray):
+                return res.reshape(src.shape, order='F')
+            return res.reshape(1, -1)
+        dims = list(A.shape)
+        if m < len(dims):
+            dims = dims[:m - 1] + [int(np.prod(dims[m - 1:]))]
+        else:
+            dims = dims + [1] * (m - len(dims))
+        B = A.reshape(dims, order='F')
+        subs = [self.positions(v, d, f'subscript {k + 1}') for k, (v, d) in enumerate(zip(vals, dims))]
+        res, scal = self.take(B, subs, what)
+        if all(scal):
+            return res.reshape(-1)[0].item()
+        return _min2d(res)
+
+    # -- builtins -----------------------------------------------------------------
+    def handle(self, v, fn):
+        if isinstance(v, (np.ndarray, np.generic)) and np.size(v) == 1:
+            v = np.asarray(v).reshape(-1)[0].item()
+        if isinstance(v, str) or not is_scalar(v):
+            self.bad(f'{fn}_bad_file_identifier', repr(v))
+        if v not in self.files:
+            self.rt('invalid_file_identifier', f'{fn}: {v!r} is not an open file')
+        return self.files[v]
+
+    def b_fopen(self, a):
+        if not 1 <= len(a) <= 4 or not all(isinstance(x, str) for x in a):
+            self.bad('fopen_bad_arguments', repr(a))
+        perm = a[1] if len(a) > 1 else 'r'
+        if not re.fullmatch(r'r[bt]?', perm):
+            if re.fullmatch(r'(r\+|[wa]\+?)[bt]?|[WA]', perm):
+                self.lim('fopen_for_writing', perm)
+            self.bad('fopen_bad_permission', perm)
+        order = '='
+        if len(a) > 2:
+            if a[2] not in _ML_MACHINEFMT:
+                self.bad('fopen_bad_machinefmt', repr(a[2]))
+            order = _ML_MACHINEFMT[a[2]]
+        fid = self.next_fid
+        self.next_fid += 1
+        self.files[fid] = self.load(a[0], order, perm)
+        self.last_fid = fid
+        return fid
+
+    def b_fclose(self, a):
+        if len(a) != 1:
+            self.bad('fclose_bad_arguments', repr(a))
+        if a[0] == 'all':
+            self.files.clear()
+            return 0
+        self.handle(a[0], 'fclose')
+        del self.files[np.asarray(a[0]).reshape(-1)[0].item() if not isinstance(a[0], (int, float)) else a[0]]
+        return 0
+
+    def b_fseek(self, a):
+        if len(a) not in (2, 3):
+            self.bad('fseek_bad_arguments', repr(a))
+        fh = self.handle(a[0], 'fseek')
+        off = self.integer(a[1], 'fseek offset')
+        origin = a[2] if len(a) == 3 else 'bof'
+        base = {'bof': 0, -1: 0, 'cof': fh.pos, 0: fh.pos, 'eof': len(fh.data), 1: len(fh.data)}
+        if isinstance(origin, (np.ndarray, list)) or origin not in base:
+            self.bad('fseek_bad_origin', repr(origin))
+        new = base[origin] + off
+        if not 0 <= new <= len(fh.data):
+            self.note('matlab: fseek outside the file returns -1 without moving')
+            return -1
+        fh.pos = new
+        return 0
+
+    def b_frewind(self, a):
+        self.handle(a[0] if a else None, 'frewind').pos = 0
+
+    def precision(self, spec):
+        s = spec.strip().lower()
+        m = re.fullmatch(r'(\*)?\s*(?:(\d+)\s*\*\s*)?([a-z][a-z0-9* ]*?)\s*(?:=>\s*([a-z0-9]+))?', s)
+        if not m:
+            self.bad('fread_bad_precision', repr(spec))
+        star, block, src, dst = m.groups()
+        if block:
+            self.lim('fread_block_precision', spec)
+        if re.fullmatch(r'u?bit\d+|u?long|char|char\*1', src):
+            self.lim('fread_precision', spec)
+        if src not in _ML_SRC or (star and dst):
+            self.bad('fread_bad_precision', f'{spec!r} is not a precision')
+        if dst is not None and dst not in _ML_CLASS:
+            if dst == 'char':
+                self.lim('fread_precision', spec)
+            self.bad('fread_bad_precision', f'{spec!r}: unknown output class')
+        code = _ML_SRC[src]
+        return code, (code if star else _ML_CLASS[dst] if dst else 'f8')
+
+    def b_fread(self, a):
+        if not a:
+            self.bad('fread_bad_arguments', 'no file identifier')
+        fh = self.handle(a[0], 'fread')
+        rest, k = a[1:], 0
+        size_a, prec, skip, order = float('inf'), 'uint8=>double', 0, fh.order
+        if k < len(rest) and not isinstance(rest[k], str):
+            size_a, k = rest[k], k + 1
+        if k < len(rest):
+            if not isinstance(rest[k], str):
+                self.bad('fread_bad_precision', f'argument {k + 2} must be a precision string')
+            prec, k = rest[k], k + 1
+        if k < len(rest) and not isinstance(rest[k], str):
+            skip, k = self.integer(rest[k], 'fread skip'), k + 1
+            if skip < 0:
+                self.lim('fread_negative_skip')
+        if k < len(rest):
+            if not isinstance(rest[k], str) or rest[k] not in _ML_MACHINEFMT:
+                self.bad('fread_bad_machinefmt', f'{rest[k]!r} is not a machine format')
+            order, k = _ML_MACHINEFMT[rest[k]], k + 1
+        if k < len(rest):
+            self.bad('fread_too_many_arguments', repr(rest[k:]))
+        code, out = self.precision(prec)
+        # sizeA: scalar n, Inf, or [m n]
+        if isinstance(size_a, Rng):
+            self.lim('fread_size_range')
+        dims = np.asarray(size_a, dtype=np.float64).reshape(-1)
+        if dims.size not in (1, 2) or np.any(dims < 0) or np.any(np.isnan(dims)) or \
+                (dims.size == 2 and np.isinf(dims[0])):
+            self.bad('fread_bad_size', f'sizeA must be a scalar or [m n], got {dims.tolist()}')
+        if np.any((dims != np.floor(dims)) & ~np.isinf(dims)):
+            self.bad('fread_bad_size', f'non-integer sizeA {dims.tolist()}')
+        want = None if np.isinf(dims).any() and dims.size == 1 else \
+            None if np.isinf(dims[-1]) else int(np.prod(dims))
+        data = self.read(fh, code, want, order, skip).astype(native(out))
+        if dims.size == 1:
+            return data.reshape(-1, 1)
+        m = int(dims[0])
+        ncol = -(-data.size // m) if m else 0
+        if np.isfinite(dims[1]) and data.size == int(np.prod(dims)):
+            ncol = int(dims[1])
+        full = np.zeros(m * ncol, dtype=data.dtype)
+        full[:data.size] = data
+        return full.reshape((m, ncol), order='F')
+
+    def dims_from(self, a, fn):
+        if len(a) == 1:
+            d = a[0]
+            if not isinstance(d, np.ndarray) or d.ndim != 2 or 1 not in d.shape and d.size:
+                if is_scalar(d) and self.family == 'scilab':
+                    return [self.integer(d, fn + ' size')]
+                self.bad(f'{fn}_bad_size', repr(d))
+            dims = [self.integer(x, fn + ' size') for x in d.reshape(-1)]
+            if self.family == 'matlab' and len(dims) < 2:
+                self.bad(f'{fn}_bad_size', 'size vector needs at least two elements')
+            return dims
+        return [None if isinstance(x, np.ndarray) and x.size == 0 else self.integer(x, fn + ' size')
+                for x in a]
+
+    def b_reshape(self, a, fn='reshape'):
+        if len(a) < 2:
+            self.bad(f'{fn}_bad_arguments', f'{len(a)} arguments')
+        A = self.arr(a[0])
+        dims = self.dims_from(a[1:], fn)
+        holes = [k for k, d in enumerate(dims) if d is None or d == -1 and self.family == 'scilab']
+        if len(holes) > 1:
+            self.bad(f'{fn}_bad_size', 'more than one free dimension')
+        if holes:
+            rest = int(np.prod([d for k, d in enumerate(dims) if k not in holes]))
+            if rest == 0 or A.size % rest:
+                self.rt(f'{fn}_size_mismatch', f'{A.size} elements into {dims}')
+            dims[holes[0]] = A.size // rest
+        if any(d < 0 for d in dims):
+            self.bad(f'{fn}_bad_size', repr(dims))
+        if int(np.prod(dims)) != A.size:
+            self.rt(f'{fn}_size_mismatch', f'{A.size} elements into {dims}')
+        return _min2d(A.reshape(-1, order='F').reshape(dims, order='F'))
+
+    def b_squeeze(self, a):
+        if len(a) != 1:
+            self.bad('squeeze_bad_arguments')
+        A = self.arr(a[0])
+        if A.ndim <= 2:
+            return A
+        dims = [d for d in A.shape if d != 1]
+        if len(dims) < 2:
+            if self.family == 'scilab':
+                self.note('scilab: orientation of squeeze() result when fewer than two '
+                          'non-singleton dimensions remain (column assumed, as Matlab)')
+            dims = (dims + [1, 1])[:2]
+        return A.reshape(dims, order='F')
+
+    def b_complex(self, a):
+        if len(a) != 2:
+            self.bad('complex_bad_arguments', f'{len(a)} arguments')
+        re_, im_ = self.arr(a[0]), self.arr(a[1])
+        if re_.dtype.kind == 'c' or im_.dtype.kind == 'c':
+            self.rt('complex_of_complex_input')
+        if re_.shape != im_.shape and re_.size != 1 and im_.size != 1:
+            self.rt('complex_size_mismatch', f'{re_.shape} vs {im_.shape}')
+        kinds = {re_.dtype.name, im_.dtype.name}
+        if self.family == 'scilab':
+            out = np.complex128
+        elif kinds <= {'float32', 'float64'}:
+            out = np.complex64 if 'float32' in kinds else np.complex128
+        else:
+            self.lim('complex_integer_class', repr(kinds))
+        res = np.empty(np.broadcast(re_, im_).shape, dtype=out)
+        res.real, res.imag = re_, im_
+        return res
+
+    def b_half_typecast(self, a):
+        if len(a) != 1 or not isinstance(a[0], np.ndarray) or a[0].dtype.name not in ('uint16', 'int16'):
+            self.bad('half_typecast_bad_argument', 'needs an int16/uint16 array')
+        self.note('matlab: half.typecast(uint16 array) taken to reinterpret the bits as IEEE half '
+                  '(Fixed-Point Designer; not available in Octave)')
+        return np.ascontiguousarray(a[0]).view(np.float16)
+
+    def b_double(self, a):
+        return self.arr(a[0]).astype(np.float64)
+
+    def b_single(self, a):
+        return self.arr(a[0]).astype(np.float32)
+
+    def b_numel(self, a):
+        return float(self.arr(a[0]).size)
+
+    def b_permute(self, a):
+        A = self.arr(a[0])
+        order = [self.integer(x, 'permute order') - 1 for x in np.asarray(a[1]).reshape(-1)]
+        if sorted(order) != list(range(len(order))) or len(order) < A.ndim:
+            self.rt('permute_bad_order', repr(order))
+        A = A.reshape(list(A.shape) + [1] * (len(order) - A.ndim))
+        return _min2d(np.transpose(A, order))
+
+
+class ScilabInterp(MatlabInterp):
+    lang = family = 'scilab'
+    constants = {'%inf': float('inf'), '%pi': np.pi, '%t': True, '%f': False, '%T': True, '%F': False,
+                 '%nan': float('nan')}
+    b_fopen = b_fclose = b_fseek = b_fread = b_frewind = b_half_typecast = b_reshape = None
+    b_single = b_permute = b_numel = None
+
+    def sfile(self, a, fn):
+        if a and isinstance(a[0], str):
+            self.bad(f'{fn}_bad_file_descriptor', repr(a[0]))
+        if not a or (is_scalar(a[0]) and a[0] == -1):
+            if self.last_fid not in self.files:
+                self.rt('invalid_file_identifier', f'{fn}: no file is open')
+            return self.files[self.last_fid]
+        return self.handle(a[0], fn)
+
+    def b_mopen(self, a):
+        if not 1 <= len(a) <= 3 or not all(isinstance(x, str) for x in a[:2]):
+            self.bad('mopen_bad_arguments', repr(a))
+        mode = a[1] if len(a) > 1 else 'rb'
+        if not re.fullmatch(r'r[bt]?', mode):
+            if re.fullmatch(r'(r\+|[wa]\+?)[bt]?|[rwa][bt]?\+', mode):
+                self.lim('mopen_for_writing', mode)
+            self.bad('mopen_bad_mode', mode)
+        fid = self.next_fid
+        self.next_fid += 1
+        self.files[fid] = self.load(a[0], '=', mode)
+        self.last_fid = fid
+        return fid
+
+    def b_mclose(self, a):
+        if len(a) > 1:
+            self.bad('mclose_bad_arguments', repr(a))
+        if a and a[0] == 'all':
+            self.files.clear()
+            return 0
+        fh = self.sfile(a, 'mclose')
+        for k in [k for k, v in self.files.items() if v is fh]:
+            del self.files[k]
+        return 0
+
+    def b_mseek(self, a):
+        if not 1 <= len(a) <= 3:
+            self.bad('mseek_bad_arguments', repr(a))
+        fh = self.sfile(a[1:2], 'mseek')
+        flag = a[2] if len(a) == 3 else 'set'
+        base = {'set': 0, 'cur': fh.pos, 'end': len(fh.data)}
+        if flag not in base:
+            self.bad('mseek_bad_flag', repr(flag))
+        new = base[flag] + self.integer(a[0], 'mseek offset')
+        if not 0 <= new <= len(fh.data):
+            self.rt('mseek_outside_file')
+        fh.pos = new
+
+    def mget(self, a, fn, integer):
+        if len(a) > 3:
+            self.bad(f'{fn}_too_many_arguments', repr(a))
+        n = self.integer(a[0], f'{fn} count') if a else 1
+        fmt = a[1] if len(a) > 1 else 'l'
+        if not isinstance(fmt, str):
+            self.bad(f'{fn}_bad_type', f'second argument must be a type string, got {fmt!r}')
+        m = re.fullmatch(r'(u?[csil]|[fd])([lb]?)', fmt)
+        if not m or (integer and m.group(1) in 'fd'):
+            self.bad(f'{fn}_bad_type', f'{fmt!r} is not a valid binary format')
+        fh = self.sfile(a[2:3], fn)
+        t, e = m.groups()
+        code = {'c': 'i1', 's': 'i2', 'i': 'i4', 'l': 'i8', 'f': 'f4', 'd': 'f8'}[t[-1]]
+        if t[0] == 'u':
+            code = 'u' + code[1]
+        data = self.read(fh, code, n, {'l': '<', 'b': '>', '': '='}[e])
+        if data.size < n:
+            self.note(f'scilab: {fn} asked for {n} elements but the file holds {data.size}')
+        return (data if integer else data.astype(np.float64)).reshape(1, -1)
+
+    def b_mget(self, a):
+        return self.mget(a, 'mget', False)
+
+    def b_mgeti(self, a):
+        return self.mget(a, 'mgeti', True)
+
+    def b_matrix(self, a):
+        return MatlabInterp.b_reshape(self, a, 'matrix')
+
+    def b_deff(self, a):
+        if len(a) < 2 or not isinstance(a[0], str):
+            self.bad('deff_bad_arguments', repr(a))
+        m = re.fullmatch(r'\s*(?:(?:\[([\w\s,%]*)\]|([\w%]+))\s*=\s*)?([\w%]+)\s*(?:\(([\w\s,%]*)\))?\s*', a[0])
+        if not m:
+            self.bad('deff_bad_header', repr(a[0]))
+        outs = tuple(x for x in re.split(r'[\s,]+', m.group(1) or m.group(2) or '') if x)
+        params = [x for x in re.split(r'[\s,]+', m.group(4) or '') if x]
+        body = a[1] if isinstance(a[1], str) else None
+        if body is None:
+            self.lim('deff_body_matrix')
+        stmts, _ = self.parse(body)
+        self.env[m.group(3)] = Func(params, stmts, self.env, 'deff', m.group(3), outs)
+        return None
+
+    def ev_assign(self, node, env):
+        if node[2][0] == 'app' and node[2][1] == ('id', 'deff'):
+            self.rt('deff_returns_nothing')
+        return super().ev_assign(node, env)
+
+
+# ---------------------------------------------------------------------------
+# R
+# ---------------------------------------------------------------------------
+
+from collections import ChainMap  # noqa: E402  (kept next to its only user)
+
+_R_FORMALS = {
+    'file': ('description', 'open', 'blocking', 'encoding', 'method', 'raw'),
+    'readBin': ('con', 'what', 'n', 'size', 'signed', 'endian'),
+    'array': ('data', 'dim', 'dimnames'),
+    'matrix': ('data', 'nrow', 'ncol', 'byrow', 'dimnames'),
+    'close': ('con',), 'numeric': ('length',), 'double': ('length',), 'integer': ('length',),
+    'complex': ('length.out',), 'length': ('x',), 'dim': ('x',), 'as.integer': ('x',),
+    'as.numeric': ('x',), 'return': ('value',),
+}
+_R_WHAT = {'numeric': 'f8', 'double': 'f8', 'integer': 'i4', 'int': 'i4', 'complex': 'c16'}
+
+
+class RInterp(Interp):
+    lang = family = 'R'
+    constants = {'TRUE': True, 'FALSE': False, 'T': True, 'F': False, 'NULL': None,
+                 'Inf': float('inf'), 'pi': np.pi}
+
+    def ev_num(self, node, env):
+        return float(node[1])           # plain numeric literals are doubles in R
+
+    def ev_id(self, node, env):
+        name = node[1]
+        if name in env:
+            return env[name]
+        if name in self.constants:
+            return self.constants[name]
+        self.lim('unknown_name', name)
+
+    def ev_block(self, node, env):
+        val = None
+        for s in node[1]:
+            val = self.exec(s, env)
+        return val
+
+    def ev_if(self, node, env):
+        c = self.ev(node[1], env)
+        if c is None or (isinstance(c, np.ndarray) and c.size != 1):
+            self.rt('if_condition_length_not_one')
+        if self.truth(c):
+            return self.ev(node[2], env)
+        return self.ev(node[3], env) if node[3] is not None else None
+
+    def ev_func(self, node, env):
+        return Func(node[2], node[3], env, 'R')
+
+    def ev_assign(self, node, env):
+        _, lhs, rhs, op = node
+        if op == '<<-':
+            self.lim('superassignment')
+        if lhs[0] not in ('id', 'str'):
+            self.lim('replacement_function_or_indexed_assignment')
+        v = self.ev(rhs, env)
+        env[lhs[1]] = v
+        return v
+
+    def ev_bin(self, node, env):
+        op = node[1]
+        a, b = self.ev(node[2], env), self.ev(node[3], env)
+        if op == ':':
+            a, b = self.range_ends(Rng(a, b))
+            step = 1 if b >= a else -1      # R counts down when from > to
+            return np.arange(a, b + step, step, dtype=np.int64)
+        if a is None or b is None:
+            self.lim('arithmetic_with_NULL')
+        return self.arith(op, a, b)
+
+    def ev_app(self, node, env):
+        _, f, args, br = node
+        if br == '[':
+            target = self.ev(f, env)
+            return self.index(target, [self.ev(n, env) for _, n in args],
+                              f[1] if f[0] == 'id' else 'value')
+        if f[0] == 'id' and f[1] not in env:
+            meth = getattr(self, 'b_' + f[1].replace('.', '_'), None)
+            if meth is None:
+                self.lim('unknown_function', f[1])
+            vals = [(kw, self.ev(n, env)) for kw, n in args if n != EMPTY]
+            if f[1] == 'c':
+                return meth(vals)
+            return meth(self.match(f[1], _R_FORMALS[f[1]], vals))
+        fn = self.ev(f, env)
+        if not isinstance(fn, Func):
+            self.rt('attempt_to_apply_non_function')
+        return self.call(fn, [(kw, self.ev(n, env)) for kw, n in args])
+
+    # -- semantics ----------------------------------------------------------------
+    def match(self, fname, formals, vals):
+        """R argument matching: exact name, unique partial name, then position."""
+        out, rest = {}, []
+        for kw, v in vals:
+            if kw is None:
+                rest.append(v)
+                continue
+            cands = [p for p in formals if p == kw] or [p for p in formals if p.startswith(kw)]
+            if len(cands) != 1 or cands[0] in out:
+                self.bad('unused_argument', f'{fname}({kw}=...)')
+            out[cands[0]] = v
+        free = [p for p in formals if p not in out]
+        if len(rest) > len(free):
+            self.bad('unused_argument', f'{fname}: too many arguments')
+        out.update(zip(free, rest))
+        return out
+
+    def call(self, fn, vals):
+        names = [p[0] for p in fn.params]
+        bound = self.match('function', names, vals)
+        for p in fn.params:
+            if p[0] not in bound:
+                if p[1] is None:
+                    self.rt('argument_missing', p[0])
+                bound[p[0]] = self.ev(p[1], fn.env)
+        local = ChainMap(bound, fn.env)
+        try:
+            val = None
+            for s in fn.body:
+                val = self.exec(s, local)
+            return val
+        except _Return as r:
+            return r.value
+
+    def vec(self, v):
+        if isinstance(v, np.ndarray):
+            return v
+        if v is None:
+            return np.empty(0)
+        if is_scalar(v):
+            return np.asarray(v).reshape(1)
+        self.rt('not_a_vector', type(v).__name__)
+
+    def rsub(self, s, n, what):
+        s = self.positions(s.reshape(-1) if isinstance(s, np.ndarray) else s, n, what)
+        if s is ALLV:
+            return s
+        p = np.atleast_1d(np.asarray(s, dtype=np.int64))
+        if (p < 0).any():
+            self.lim('negative_subscript')
+        return p[p != 0]                     # zero subscripts are dropped
+
+    def index(self, x, subs, what):
+        if x is None:
+            return None
+        A = self.vec(x)
+        m = len(subs)
+        if m == 0 or (m == 1 and subs[0] is ALLV):
+            return A
+        if m == 1:
+            flat = A.reshape(-1, order='F')
+            p = self.rsub(subs[0], flat.size, what)
+            if p.size and p.max() > flat.size:
+                self.rt('subscript_beyond_length_gives_NA', f'{what}[{int(p.max())}] of {flat.size}')
+            return self.take(flat, [p], what)[0]
+        if A.ndim < 2 or m != A.ndim:
+            self.rt('incorrect_number_of_dimensions', f'{what} has {A.ndim if A.ndim > 1 else "no"} '
+                                                      f'dims, {m} subscripts')
+        ps = [self.rsub(s, d, f'subscript {k + 1}') for k, (s, d) in enumerate(zip(subs, A.shape))]
+        res, _ = self.take(A, ps, what)
+        dims = [d for d in res.shape if d != 1]     # drop = TRUE
+        return res.reshape(dims if len(dims) > 1 else (-1,), order='F')
+
+    # -- builtins -------------------------------------------------------------------
+    def b_c(self, vals):
+        if not vals:
+            return None
+        parts = [self.vec(v).reshape(-1, order='F') for _, v in vals if v is not None]
+        if not parts:
+            return None
+        out = np.concatenate(parts)
+        return out.astype(np.float64) if out.dtype.kind in 'biu' and any(
+            p.dtype.kind == 'f' for p in parts) else out
+
+    def empty_vector(self, a, code, fn):
+        n = self.integer(a.get('length', a.get('length.out', 0.0)), f'{fn} length')
+        return np.zeros(n, dtype=native(code))
+
+    def b_numeric(self, a):
+        return self.empty_vector(a, 'f8', 'numeric')
+
+    b_double = b_numeric
+
+    def b_integer(self, a):
+        return self.empty_vector(a, 'i4', 'integer')
+
+    def b_complex(self, a):
+        return self.empty_vector(a, 'c16', 'complex')
+
+    def b_return(self, a):
+        raise _Return(a.get('value'))
+
+    def b_length(self, a):
+        return float(self.vec(a['x']).size)
+
+    def b_dim(self, a):
+        A = self.vec(a['x'])
+        return np.array(A.shape, dtype=np.float64) if A.ndim > 1 else None
+
+    def b_as_numeric(self, a):
+        return self.vec(a['x']).reshape(-1, order='F').astype(np.float64)
+
+    def b_as_integer(self, a):
+        return self.vec(a['x']).reshape(-1, order='F').astype(np.int32)
+
+    def b_file(self, a):
+        for k in ('blocking', 'encoding', 'method', 'raw'):
+            if k in a:
+                self.lim('file_option', k)
+        mode = a.get('open', '')
+        if 'description' not in a or not isinstance(a['description'], str) or not isinstance(mode, str):
+            self.bad('file_bad_arguments', repr(a))
+        if mode not in ('', 'r', 'rt', 'rb'):
+            if re.fullmatch(r'[rwa]\+?[bt]?|[wa][bt]?\+?', mode):
+                self.lim('file_opened_for_writing', mode)
+            self.bad('file_bad_open_mode', repr(mode))
+        fh = self.load(a['description'], '<', mode)
+        self.files[id(fh)] = fh
+        return fh
+
+    def b_close(self, a):
+        fh = a.get('con')
+        if not isinstance(fh, FileH):
+            self.bad('close_bad_connection', repr(fh))
+        if id(fh) not in self.files:
+            self.rt('invalid_connection', 'close of a closed connection')
+        del self.files[id(fh)]
+        return None
+
+    def b_readBin(self, a):
+        if 'con' not in a or 'what' not in a:
+            self.bad('readBin_missing_argument', 'con and what are required')
+        con, what = a['con'], a['what']
+        temp = False
+        if isinstance(con, str):
+            con, temp = self.load(con, '<', 'rb'), True
+        if not isinstance(con, FileH):
+            self.bad('readBin_bad_connection', repr(con))
+        if not temp and id(con) not in self.files:
+            self.rt('invalid_connection', 'readBin on a closed connection')
+        if con.mode in ('r', 'rt'):
+            self.bad('readBin_text_mode_connection', 'can only read from a binary connection')
+        if con.mode == '':
+            con.pos = 0          # unopened connection: opened "rb" for the duration of the call
+        if isinstance(what, str):
+            if what not in _R_WHAT:
+                if what in ('logical', 'character', 'raw'):
+                    self.lim('readBin_what', what)
+                self.bad('readBin_bad_what', repr(what))
+            code = _R_WHAT[what]
+        elif isinstance(what, np.ndarray) and what.dtype.str[1:] in ('f8', 'i4', 'c16'):
+            code = what.dtype.str[1:]
+        else:
+            self.bad('readBin_bad_what', repr(what))
+        n = self.integer(a.get('n', 1.0), 'readBin n')
+        if n < 0:
+            self.bad('readBin_bad_n', str(n))
+        natural = {'f8': 8, 'i4': 4, 'c16': 16}[code]
+        size = a.get('size', None)
+        size = natural if size is None else self.integer(size, 'readBin size')
+        signed = a.get('signed', True)
+        if not isinstance(signed, (bool, np.bool_)):
+            self.bad('readBin_bad_signed', repr(signed))
+        endian = a.get('endian', 'little')
+        if endian not in ('little', 'big', 'swap'):
+            self.bad('readBin_bad_endian', repr(endian))
+        order = {'little': '<', 'big': '>', 'swap': '>'}[endian]
+        if code == 'c16':
+            if size != 16:
+                self.bad('readBin_bad_size', 'size changing is not supported for complex vectors')
+            return self.read(con, 'c16', n, order)
+        if code == 'f8':
+            if size not in (4, 8):
+                if size in (12, 16):
+                    self.lim('readBin_long_double')
+                self.bad('readBin_bad_size', f'size {size} is unknown for numeric')
+            return self.read(con, f'f{size}', n, order).astype(np.float64)
+        if size not in (1, 2, 4, 8):
+            self.bad('readBin_bad_size', f'size {size} is unknown for integer')
+        if not signed and size > 2:
+            self.note("R: signed=FALSE is only honoured for integer sizes 1 and 2 (warning); read as signed")
+            signed = True
+        raw = self.read(con, ('i' if signed else 'u') + str(size), n, order)
+        if size == 8 and raw.size and (np.abs(raw) > 2147483647).any():
+            self.note('R: readBin(integer(), size=8) of values outside the 32-bit range '
+                      '(C cast to int assumed)')
+        out = raw.astype(np.int64).astype(np.int32)
+        if out.size and (out == np.iinfo(np.int32).min).any():
+            self.note('R: the bit pattern INT_MIN is NA_integer_ in R')
+        return out
+
+    def b_array(self, a):
+        if a.get('dimnames') is not None:
+            self.lim('array_dimnames')
+        data = self.vec(a['data']).reshape(-1, order='F') if 'data' in a else None
+        if data is None:
+            self.lim('array_of_NA')
+        dim = a.get('dim')
+        dims = [data.size] if dim is None else [self.integer(x, 'array dim') for x in self.vec(dim).reshape(-1)]
+        if not dims or any(d < 0 for d in dims):
+            self.rt('array_bad_dim', repr(dims))
+        total = int(np.prod(dims))
+        if data.size == 0 and total > 0:
+            self.lim('array_filled_with_NA')
+        if data.size != total and total:
+            self.note('R: array() recycles/truncates data whose length differs from prod(dim)')
+            data = np.resize(data, total)
+        elif total == 0:
+            data = data[:0]
+        return data.reshape(dims, order='F')
+
+    def b_matrix(self, a):
+        self.lim('matrix_function')
